@@ -77,6 +77,8 @@ def current_cols(c: dict) -> t.List[str]:
             cols = [x for x in cols if x not in s["ns"]]
         elif k == "toDF":
             cols = list(s["names"])
+        elif k == "unpivot":
+            cols = s["ids"] + [s["var"], s["val"]]
     return cols
 
 
